@@ -51,12 +51,12 @@ def run_case(rng, idx, tier):
     sA, sB, cls, truth = pairs.make_pair(rng, kA, kB, class_p=cp)
     if cls == "gap" and rng.random() < 0.5:
         # re-place near the band edge: g in [1, 3] * 1e-3 * L
-        oA0, oB0, L0 = pairs.scene(sA, sB)
+        oA0, oB0, L0 = pairs.scene(sA, sB, k=1e-3)
         from .. import gen
         g = DELTA * L0 * rng.uniform(1.0, 3.0) * 1.02
         sB, u, pa, pb = gen.place_gap(rng, sA, sB, g, truth["u"])
         truth["dist"] = g
-    oA, oB, L = pairs.scene(sA, sB)
+    oA, oB, L = pairs.scene(sA, sB, k=1e-3)
     A, B = pairs.build_pair(sA, sB)
     viol = []; inconcl = []
     ev = {"decided_true": 0, "decided_false": 0}
